@@ -9,6 +9,7 @@ import (
 	"context"
 	"errors"
 	"fmt"
+	"sort"
 	"strings"
 	"sync"
 	"sync/atomic"
@@ -78,12 +79,13 @@ type vbroker struct {
 	mu  sync.Mutex
 	log *vLog
 
-	sessionKept bool
-	methodB     bool
-	plan        []*e4Fault
-	noFaults    bool
-	grantMax    int           // 0: grant what was requested; n: grant at most QoS n-1
-	pingDelay   time.Duration // PINGRESP is sent this much later (a slow but healthy broker)
+	sessionKept  bool
+	methodB      bool
+	plan         []*e4Fault
+	noFaults     bool
+	grantMax     int           // 0: grant what was requested; n: grant at most QoS n-1
+	pingDelay    time.Duration // PINGRESP is sent this much later (a slow but healthy broker)
+	repeatPubrec bool          // on session resumption the PUBRECs of unfinished QoS2 exchanges are sent again
 
 	sessionExists bool
 	subs          map[string]int
@@ -321,6 +323,18 @@ func (c *vbConn) process(pk refPacket, lose bool) {
 		}
 		b.sessionExists = !pk.CleanSession
 		c.send(refPacket{Type: rtConnAck, SessionPresent: sp}, lose, "")
+		if !lose && sp && b.repeatPubrec {
+			// a broker that repeats, right behind the CONNACK, the PUBREC of every QoS2 exchange it is still waiting
+			// for the PUBREL of (nothing forbids it; to the client these are acknowledgements nobody waits for)
+			var ids []int
+			for id := range b.q2 {
+				ids = append(ids, id)
+			}
+			sort.Ints(ids)
+			for _, id := range ids {
+				c.send(refPacket{Type: rtPubRec, ID: id}, false, "")
+			}
+		}
 		if !lose {
 			for _, inj := range b.inject[c.id] {
 				c.send(inj, false, "")
